@@ -1537,6 +1537,10 @@ def compile_try_expression(compiler, expr, root, body, catchers, orelse, finalbo
 
         if exceptions == "ALL":
             # Catch all exceptions.
+            if except_sym == Symbol("except*"):
+                # Python's grammar doesn't allow this, and CPython can
+                # crash when such a handler is reached.
+                compiler._syntax_error(catcher, "`except*` requires an exception type")
             types = Result()
         elif isinstance(exceptions, List):
             # [FooBar BarFoo] → Catch Foobar and BarFoo exceptions.
